@@ -10,6 +10,8 @@ Each entry: class name -> dict(
     G        : lambda s, p -> documented transfer function value,
     regions  : {'regular': {param: grid values}, '<bypass name>': {param: grid values}, ...},
     integrating : True if a non-zero constant input has no steady state (steady-state check uses u = 0),
+    shift    : name of a constructor argument documented as a reference subtracted from the input: the block must depend on
+               (u, shift) only through u - shift, and u = shift is its steady state,
 )
 """
 
@@ -73,22 +75,22 @@ BLOCKS = {
     'LeadLagLimit': dict(params=['T1', 'T2'], fixed=dict(**FAR), out='y',
                          G=lambda s, p: (1 + s * p['T1']) / (1 + s * p['T2']),
                          regions={'regular': dict(T1=G4, T2=G4b), 'T1=0': dict(T1=[0.0], T2=G4b)}),
-    'PIController': dict(params=['kp', 'ki'], out='y', G=_pi, regions={'regular': dict(kp=G4, ki=G4b)},
+    'PIController': dict(shift='ref', params=['kp', 'ki'], out='y', G=_pi, regions={'regular': dict(kp=G4, ki=G4b)},
                          integrating=True),
-    'PIDController': dict(params=['kp', 'ki', 'kd', 'Td'], out='y', G=_pid,
+    'PIDController': dict(shift='ref', params=['kp', 'ki', 'kd', 'Td'], out='y', G=_pid,
                           regions={'regular': dict(kp=G4, ki=G4b, kd=G4c, Td=G4d)}, integrating=True),
-    'PIAWHardLimit': dict(params=['kp', 'ki'], fixed=dict(aw_lower=-1e3, aw_upper=1e3, **FAR), out='y', G=_pi,
+    'PIAWHardLimit': dict(shift='ref', params=['kp', 'ki'], fixed=dict(aw_lower=-1e3, aw_upper=1e3, **FAR), out='y', G=_pi,
                           regions={'regular': dict(kp=G4, ki=G4b)}, integrating=True),
-    'PIDAWHardLimit': dict(params=['kp', 'ki', 'kd', 'Td'], fixed=dict(aw_lower=-1e3, aw_upper=1e3, **FAR), out='y',
+    'PIDAWHardLimit': dict(shift='ref', params=['kp', 'ki', 'kd', 'Td'], fixed=dict(aw_lower=-1e3, aw_upper=1e3, **FAR), out='y',
                            G=_pid, regions={'regular': dict(kp=G4, ki=G4b, kd=G4c, Td=G4d)}, integrating=True),
-    'PITrackAW': dict(params=['kp', 'ki', 'ks'], fixed=dict(**FAR), out='y', G=_pi,
+    'PITrackAW': dict(shift='ref', params=['kp', 'ki', 'ks'], fixed=dict(**FAR), out='y', G=_pi,
                       regions={'regular': dict(kp=G4, ki=G4b, ks=G4c)}, integrating=True),
-    'PIDTrackAW': dict(params=['kp', 'ki', 'kd', 'Td', 'ks'], fixed=dict(**FAR), out='y', G=_pid,
+    'PIDTrackAW': dict(shift='ref', params=['kp', 'ki', 'kd', 'Td', 'ks'], fixed=dict(**FAR), out='y', G=_pid,
                        regions={'regular': dict(kp=G4[:3], ki=G4b[:3], kd=G4c[:3], Td=G4d[:3], ks=G4[:2])},
                        integrating=True),
-    'PITrackAWFreeze': dict(params=['kp', 'ki', 'ks'], fixed=dict(freeze=0.0, **FAR), out='y', G=_pi,
+    'PITrackAWFreeze': dict(shift='ref', params=['kp', 'ki', 'ks'], fixed=dict(freeze=0.0, **FAR), out='y', G=_pi,
                             regions={'regular': dict(kp=G4, ki=G4b, ks=G4c)}, integrating=True),
-    'PIFreeze': dict(params=['kp', 'ki'], fixed=dict(freeze=0.0), out='y', G=_pi,
+    'PIFreeze': dict(shift='ref', params=['kp', 'ki'], fixed=dict(freeze=0.0), out='y', G=_pi,
                      regions={'regular': dict(kp=G4, ki=G4b)}, integrating=True),
 }
 
